@@ -65,3 +65,9 @@ package optimization
 //@   ensures C19.sync_one [C19]: e_Optimize <= old(e_Optimize) + 1 && e_OptCreate == old(e_OptCreate) && (forall h string :: d_optReg[h] ==> old(d_optReg)[h])
 //@   assert_at disableNodes#1 C19.sync_drops_converged_and_lost [C19]: callarg2 == masterRs
 //@   assert_at balanceToSingleNode#1 C19.sync_balance_after_disable [C19]: resultof("disableNodes", 1) == nil && callarg1 == masterRs && callarg2 == hostsState
+
+// ---- C20: structural invariants (assumed at entry in the sweep) ---------------------------------------------------
+//@ define controllerOK(m *Controller) = m.logger != nil && m.dcs != nil
+//@ define syncerOK(s *Syncer) = s.logger != nil && s.dcs != nil
+//@ typeinv *optimization.Controller controllerOK init app/optimization.NewController
+//@ typeinv *optimization.Syncer syncerOK init app/optimization.NewSyncer
